@@ -1,0 +1,7 @@
+//go:build !verif
+
+package ugo
+
+// verifPoint is a named synchronisation point used by the verification
+// harness (build tag "verif"). It is a no-op in normal builds.
+func verifPoint(string, *VM) {}
